@@ -392,6 +392,19 @@ func (_this *Context) ValidateMediaType(mediaType string) {
 	}
 }
 
+// Validate that an area/location time zone name is made of the characters used
+// by time zone databases (which are also the ones the text format can express).
+func (_this *Context) ValidateAreaLocation(areaLocation string) {
+	isValid := len(areaLocation) > 0 && areaLocation[0] >= 'A' && areaLocation[0] <= 'Z'
+	for i := 1; isValid && i < len(areaLocation); i++ {
+		ch := areaLocation[i]
+		isValid = (ch >= 'a' && ch <= 'z') || (ch >= 'A' && ch <= 'Z') || (ch >= '0' && ch <= '9') || strings.IndexByte("_-./+", ch) >= 0
+	}
+	if !isValid {
+		panic(fmt.Errorf("%q is not a valid area/location time zone", areaLocation))
+	}
+}
+
 func (_this *Context) ValidateContentsStringlike(contents string) {
 	if !utf8.ValidString(contents) {
 		panic(fmt.Errorf("string is not valid UTF-8: %v", string(contents)))
